@@ -45,7 +45,7 @@ def module_sets(tier, seed):
     tests = sorted(glob.glob(os.path.join(build.REPO, "tests/tests-asn1c-compiler/*-OK.asn1")))
     tests = ["repo:" + os.path.relpath(t, build.REPO) for t in tests]
     sets = []
-    for m in ("Sim1", "Sim2", "Sim3", "Sim4", "Sim5", "Sim6", "Sim7", "Sim8"): sets.append(["verif:corpus/%s.asn1" % m])
+    for m in ("Sim1", "Sim2", "Sim3", "Sim4", "Sim5", "Sim6", "Sim7", "Sim8", "Sim9"): sets.append(["verif:corpus/%s.asn1" % m])
     # seeded generated modules (tools/gen_module.py): the same-code clause of the property quantifies over these
     for k in range(6 if tier == "quick" else 40):
         g = "gen:Gen%d" % ((seed % 4096) * 64 + k + 1)
@@ -56,6 +56,7 @@ def module_sets(tier, seed):
     sets.append(["verif:corpus/CoA.asn1", "verif:corpus/CoB.asn1"])         # COMPONENTS OF, values and defaults across modules
     sets.append(["verif:corpus/CoC.asn1", "verif:corpus/CoD.asn1"])
     sets.append(["verif:corpus/Dup1.asn1", "verif:corpus/Dup2.asn1", "verif:corpus/Dup3.asn1"])   # the same identifiers defined in three modules   # ... into a module with different default tagging
+    sets.append(["verif:corpus/LstA.asn1", "verif:corpus/LstB.asn1"])          # a list type and its element type in two modules that import each other
     sets.append(["verif:corpus/ObjA.asn1", "verif:corpus/ObjB.asn1"])          # types used only through information objects of another module
     sets.append(["verif:corpus/ResA.asn1", "verif:corpus/ResB.asn1", "verif:corpus/ResC.asn1"])   # same names meaning different things in different modules
     sets.append(["verif:corpus/Sim1.asn1", "verif:corpus/Sim2.asn1", "verif:corpus/Sim3.asn1"])
